@@ -49,20 +49,28 @@ FileBackedFrom(b, a) ==
 (* Dev = "AddrFromOffset" maps at the page start of p_offset instead of p_vaddr.                               *)
 PageOff(d, ps)  == ToNat(SubSeq(d, 1, 2)) % ps                      \* ps is a power of two <= 65536
 PageUp(n, ps)   == ((n + ps - 1) \div ps) * ps
-PagedWrite(b, p, ps) ==
+PagedWriteD(b, p, ps, dev) ==
   LET po   == PageOff(p.p_vaddr, ps)
       fs   == Cap2(p.p_filesz)   ms == Cap2(p.p_memsz)
       off  == Cap2(p.p_offset) - po
       size == PageUp(fs + po, ps)
       raw  == Tup([i \in 1..Min2(size, Len(b) - off) |-> b[off + i]])
-      data == IF ms > fs /\ Dev # "NoBssZero"
+      data == IF ms > fs /\ dev # "NoBssZero"
               THEN Tup([i \in 1..PageUp(po + ms, ps) |-> IF i <= po + fs /\ i <= Len(raw) THEN raw[i] ELSE 0])
               ELSE raw
-      addr == IF Dev = "AddrFromOffset" THEN SubD(p.p_offset, Digits(PageOff(p.p_offset, ps), 2))
+      addr == IF dev = "AddrFromOffset" THEN SubD(p.p_offset, Digits(PageOff(p.p_offset, ps), 2))
               ELSE SubD(p.p_vaddr, Digits(po, 2))
   IN [a |-> addr, d |-> data]
-PagedWrites(b, ps) == LET ph == PhdrsOf(b)  L == SetToSeq({k \in DOMAIN ph : TypeIs(ph[k].p_type, PT_LOAD)})
-                      IN Tup([j \in 1..Len(L) |-> PagedWrite(b, ph[L[j]], ps)])
+PagedWritesD(b, ps, dev) == LET ph == PhdrsOf(b)  L == SetToSeq({k \in DOMAIN ph : TypeIs(ph[k].p_type, PT_LOAD)})
+                           IN Tup([j \in 1..Len(L) |-> PagedWriteD(b, ph[L[j]], ps, dev)])
+PagedWrites(b, ps) == PagedWritesD(b, ps, Dev)
+\* the image the loader without zero fill leaves (the named deviation of the unchanged tree): cells, -1 = unmapped
+AsIsImage(b, ps) == LET W == PagedWritesD(b, ps, "NoBssZero")  I == Image(b) IN
+  Tup([j \in 1..Len(I) |-> ViewAfter(Unmapped(Len(I[j].mem)), I[j].va, W, 1)])
+AsIsAt(b, ps, a, n) ==
+  LET I == Image(b)  S == {k \in DOMAIN I : InD(a, I[k].va, Digits(Len(I[k].mem), Len(a)))} IN
+  IF S = {} THEN <<>> ELSE LET k == CHOOSE k \in S : TRUE  m == AsIsImage(b, ps)[k]  o == ToNat(SubD(a, I[k].va))
+                           IN SubSeq(m, o + 1, Min2(Len(m), o + n))
 \* the paging loader leaves exactly Image(b) in every segment
 PagedRefines(b, ps) == LET W == PagedWrites(b, ps)  I == Image(b) IN
   \A j \in DOMAIN I : ViewAfter(Unmapped(Len(I[j].mem)), I[j].va, W, 1) = I[j].mem
